@@ -343,9 +343,17 @@ def oracle(chk):
                 "UserBaseExc": UserBaseExc}
 
     for s in range(n_sessions):
-        gmode = rng.choice(["none", "dict", "dict", "dict"])
-        lmode = rng.choice(["none", "own", "same"] if gmode == "dict" else ["none", "own"])
-        G = None if gmode == "none" else dict(preset())
+        gmode = rng.choice(["none", "dict", "dict", "dict", "module-dict"])
+        lmode = rng.choice(["none", "own", "same"] if gmode == "dict" else ["none"] if gmode == "module-dict" else ["none", "own"])
+        session_module = None
+        if gmode == "module-dict":
+            # the namespace is the __dict__ of the very module the code is compiled for
+            import types
+            session_module = types.ModuleType("c39_session_module_%d" % s)
+            G = vars(session_module)
+            G.update(preset())
+        else:
+            G = None if gmode == "none" else dict(preset())
         L = None if lmode == "none" else (G if lmode == "same" else {})
         if G is None and L is not None:
             L.update(preset())
@@ -373,7 +381,7 @@ def oracle(chk):
             elif mode == "compile-error":
                 k = rng.randint(0, len(forms))
                 forms.insert(k, (rng.choice(COMPILE_ERRORS), Raises("compile")))
-            elif mode == "bad-module":
+            elif mode == "bad-module" and session_module is None:
                 module_arg = 5
             elif mode == "rebind-hy":
                 v = rng.randint(0, 9)
@@ -417,6 +425,8 @@ def oracle(chk):
             kw = {}
             if module_arg is not None:
                 kw["module"] = module_arg
+            elif session_module is not None:
+                kw["module"] = session_module
 
             def call():
                 # the caller's frame for the no-dictionary case
